@@ -9,7 +9,7 @@ CHECK_FN = "check_case"
 CASE_TYPE = "case"
 SHARD = 8
 RULE = ("pairs: a curve and a copy refined by knot insertion and/or degree elevation (done by the implementation), compared "
-        "in both operand orders; the same with one refined control point moved (by 1e-3: different; by 1e-12: equal "
+        "in both operand orders; the same with one refined control point moved (by 1e-3, by 1e-7, by 1/2 on coordinates of size 1e5: different; by 1e-12: equal "
         "within the tolerance); independent curves on the same interval and on different intervals; non-curve right "
         "operands; non-trivial = degree >= 1 and the two operands have different knot vectors")
 
@@ -32,11 +32,11 @@ def gen(tier, seed):
         base = {"U": fsl(U), "p": p, "kind": v["kind"], "mults": v["mults"], "scalar": dim == 1,
                 "P": pts_json(rand_points(rnd, n, dim))}
         modes = ["same", "refined", "refined", "moved", "tiny", "other", "interval", "cross", "cross", "cross_other",
-                 "line_vs_kink"]
+                 "line_vs_kink", "moved_small", "moved_big"]
         for mode in (modes if tier != "quick" else rnd.sample(modes, 4)):
             ins = rnd.sample(mids, min(len(mids), rnd.randint(0, 2)))
             elev = rnd.choice((0, 0, 1, 2, 3) if n <= 3 else (0, 0, 1)) if n <= 5 else 0
-            if mode in ("refined", "moved", "tiny") and not ins and not elev:
+            if mode in ("refined", "moved", "tiny", "moved_small", "moved_big") and not ins and not elev:
                 ins = mids[:1]
             ins2 = []
             if mode in ("cross", "cross_other"):
@@ -47,7 +47,7 @@ def gen(tier, seed):
                 x, y = rnd.sample(free, 2)
                 ins, ins2, elev = [x], [y], 0
             cases.append(dict(base, mode=mode, ins=fsl(ins), ins2=fsl(ins2), elev=elev, which=rnd.randint(0, 50),
-                              P2=pts_json(rand_points(rnd, n, dim)), swap=rnd.random() < 0.5))
+                              P2=pts_json(rand_points(rnd, n, dim)), P3=pts_json(rand_points(rnd, 2, dim)), swap=rnd.random() < 0.5))
     return cases
 
 
@@ -67,23 +67,28 @@ def impl(case):
     if mode == "line_vs_kink":
         # a lower-degree curve with a genuine kink / jump against a smooth curve raised by two or three degrees
         U = nums(case["U"])
-        B = Curve([U[0]] * 2 + [U[-1]] * 2, points(case["P2"][:2], case["scalar"]))
+        B = Curve([U[0]] * 2 + [U[-1]] * 2, points(case["P3"], case["scalar"]))
         B.degree_increase(case["which"] % 2 + 2)
     if mode in ("cross", "cross_other"):
         A.knot_insert(nums(case["ins2"]))
         B.knot_insert(nums(case["ins"]))
         if mode == "cross_other":
             B.ctrlpoints = list(A.ctrlpoints)       # same numbers on a different vector: a different function
-    if mode in ("refined", "moved", "tiny"):
+    if mode == "moved_big":
+        # large coordinates: a difference of 1/2 is small RELATIVE to them, but far beyond the absolute 1e-9
+        A.ctrlpoints = [100000 * pt for pt in A.ctrlpoints]
+        B = deepcopy(A)
+    if mode in ("refined", "moved", "tiny", "moved_small", "moved_big"):
         if case["ins"]:
             B.knot_insert(nums(case["ins"]))
         if case["elev"]:
             B.degree_increase(case["elev"])
-    if mode in ("moved", "tiny"):
+    if mode in ("moved", "tiny", "moved_small", "moved_big"):
         from fractions import Fraction
         pts = list(B.ctrlpoints)
         i = case["which"] % len(pts)
-        delta = Fraction(1, 1000) if mode == "moved" else Fraction(1, 10 ** 12)
+        delta = {"moved": Fraction(1, 1000), "tiny": Fraction(1, 10 ** 12), "moved_small": Fraction(1, 10 ** 7),
+                 "moved_big": Fraction(1, 2)}[mode]
         pts[i] = pts[i] + delta if case["scalar"] else pts[i] + np.array([delta] + [0] * (len(pts[i]) - 1), dtype=object)
         B.ctrlpoints = pts
     if case["swap"]:
@@ -120,4 +125,4 @@ def describe(case):
 
 
 def nontrivial(case):
-    return case["p"] >= 1 and case["mode"] in ("refined", "moved", "tiny", "cross", "cross_other")
+    return case["p"] >= 1 and case["mode"] in ("refined", "moved", "tiny", "cross", "cross_other", "moved_small", "moved_big")
